@@ -270,10 +270,49 @@ def apply_rules(text, rules, log):
                 log.add(rule, r.get("why", ""), ms[0].group(0), pat.sub(r["repl"], ms[0].group(0), count=1), n)
             text = pat.sub(r["repl"], text)
             continue
+        if kind == "lock_iflet":
+            text = _rewrite_lock_iflet(text, r, log)
+            continue
         if kind == "call":  # balanced call rewrite:  PREFIX( args ) SUFFIX_RE  ->  template
             text = _rewrite_call(text, r, log)
             continue
         raise ExtractError("unknown rule kind %r" % kind)
+    return text
+
+
+def _rewrite_lock_iflet(text, r, log):
+    """R2:  if let Ok(<pat>) = <EXPR>.read()|write()|lock() { A } [else { B }]   ->   { let <pat> = &mut <EXPR>; A }
+    The else-arm (lock poisoned) is dropped: A-LOCK says locks never poison."""
+    pat = re.compile(r"if let Ok\((mut\s+)?(\w+)\)\s*=\s*([\w\.:\(\)]+?)\.(?:read|write|lock)\(\)\s*\{", re.S)
+    n = 0
+    first = None
+    while True:
+        m = pat.search(text)
+        if not m:
+            break
+        ob = m.end() - 1
+        sub = text[ob:]
+        toks = lex.code_tokens(sub)
+        cl = lex.match_close(sub, toks, 0)
+        end = ob + toks[cl][2]
+        body = text[ob + 1:end - 1]
+        rest = text[end:]
+        me = re.match(r"\s*else\s*\{", rest)
+        if me:
+            sub2 = rest[me.end() - 1:]
+            t2 = lex.code_tokens(sub2)
+            c2 = lex.match_close(sub2, t2, 0)
+            end = end + me.end() - 1 + t2[c2][2]
+        new = "{ let %s%s = &mut %s;%s}" % (m.group(1) or "", m.group(2), m.group(3), body)
+        if first is None:
+            first = (text[m.start():m.end()], "{ let %s%s = &mut %s;" % (m.group(1) or "", m.group(2), m.group(3)))
+        text = text[:m.start()] + new + text[end:]
+        n += 1
+    lo = r.get("min", 0)
+    if n < lo:
+        raise ExtractError("lost anchor: rule %s lock_iflet matched %d times" % (r.get("rule"), n))
+    if n:
+        log.add(r.get("rule", "R2"), "if let Ok(g) = X.read()/write() { A } else { B } -> { let g = &mut X; A }  (else-arm = poisoned lock, dropped)", first[0], first[1], n)
     return text
 
 
